@@ -271,8 +271,8 @@ func (g *Gen) genRoute(cfg *ShapeCfg, prefix string) RegOp {
 	if rng.Chance(1, 2) {
 		nmw = rng.Range(1, 3)
 	}
-	if cfg.LongChains && rng.Chance(1, 12) {
-		nmw = rng.Range(28, 40)
+	if cfg.LongChains && rng.Chance(1, 6) {
+		nmw = rng.Range(28, 52)
 	}
 	op.MW = g.newIDs('r', nmw, cfg)
 	if op.Via != "any" && rng.Chance(1, 5) {
